@@ -124,9 +124,11 @@ prop("C03", [
 
 prop("C04", [
     dict(engine="verus", unit="dnsser"),
-    dict(engine="verus", unit="dnsreply", fns=["DnsListenerHandler::prepare_to_send", "run_udp_reply"]),
-    dict(engine="verus", unit="dnsparse", fns=["PktParser::get_dns"]),
-], explanation="size-limited serialiser contract; per-transport limit as emission-point precondition; advertised size floor 512 in the decoder")
+    dict(engine="verus", unit="dnsreply", fns=["DnsListenerHandler::prepare_to_send", "run_udp_reply", "run_tcp_reply"]),
+    dict(engine="verus", unit="dnsparse", fns=["PktParser::get_dns", "PktParser::get_domain", "PktParser::get_domain_into"]),
+], explanation="size-limited serialiser contract (length <= limit for every message the decoder can produce: names <= 255 octets); per-transport limit and TCP framing as emission-point preconditions; advertised size floor 512 in the decoder",
+    assumptions=["push_compressed_domain (LinkedList dictionary, outside Verus) appends at least one and at most labels+1 octets: assumed contract, checked bounded by the Kani set dns_compress (exact output lengths asserted)",
+                 "the reply handed to the serialiser is pkt_wf (recv_in_query stub): replies are built from decoded queries and decoded upstream replies, whose names the decoder now bounds; locally configured names are not covered"])
 
 prop("C05", [
     dict(engine="verus", unit="dnsparse"),
